@@ -2721,6 +2721,11 @@ def c05(tier):
                 if p:
                     add(nm, "lie", [p])
             pr = pairs if not quick else rnd.sample(pairs, 1500)
+            if quick and nm == "z64":
+                # every cooperating pair inside the archive trailer (end record, ZIP64 end record, locator): counts, sizes and
+                # offsets that lie together are what the pre-allocation and offset arithmetic of the open paths must survive
+                trailer = {"eocd", "z64rec", "z64loc"}
+                pr = pr + [lp for lp in pairs if all(x["rec"] in trailer for x in lp)]
             if not quick and nm not in ("z64", "aes", "plain"):
                 pr = rnd.sample(pairs, 20000)
             for lp in pr:
@@ -2819,7 +2824,7 @@ def c05(tier):
                       "repository's fixtures) x {every truncation point, single-byte substitutions in all structural bytes (quick: sampled), multi-site mutations "
                       "(set/insert/delete/truncate), the structure-aware single lies and cooperating pairs of lies enumerated by TLC from Lies.tla (field x boundary value)} "
                       "+ arbitrary bytes with record signatures; each input runs the whole reader surface (open, by_index/by_index_raw/by_index_decrypt/by_name(+decrypt), "
-                      "reads, all accessors, clone, streaming reader full and partial, visitor, new_append+finish) in a supervised worker process under a counting "
+                      "reads, all accessors, clone, streaming reader full and partial, visitor, new_append) in a supervised worker process under a counting "
                       "allocator; Trace_Robust requires every result class to be a value or an error, no crash/stall, and peak heap growth while opening <= 1 MiB + 512 x len; "
                       "distinct = distinct (seed, mutation)",
                       assumptions=["exploration: the space of byte strings is sampled, exhaustive only over truncation points and (thorough) substitutions of small seeds and the enumerated lies",
